@@ -33,8 +33,8 @@ def gen_cache(r, data, p_enable=0.5):
     return {
         "enable": r.random() < p_enable,
         "ib": r.randint(0, 2),
-        "bb": r.randint(0, 2),
-        "ways": r.choice([1, 2, 4]) if strat == "plru" else r.choice([1, 2, 3, 4]),
+        "bb": r.choice([0, 0, 1, 1, 2, 2, 3]),
+        "ways": r.choice([1, 2, 4]) if strat == "plru" else r.choice([1, 2, 3, 4, 5]),
         "kind": r.choice(["wb", "wt"]) if data else "wt",
         "strat": strat,
         "pen": r.choice([0, 0, 1, 3]),
@@ -44,8 +44,9 @@ def gen_cache(r, data, p_enable=0.5):
 def gen_settings(r, isa=None):
     isa = isa or ("toy" if r.random() < 0.3 else "riscv")
     if isa == "toy":
-        return {"isa": "toy"}
+        return {"isa": "toy", "decoy": r.random() < 0.25}
     return {
+        "decoy": r.random() < 0.25,
         "isa": "riscv",
         "mode": r.choice(["single_stage_pipeline", "five_stage_pipeline"]),
         "hz": r.random() < 0.8,
@@ -350,8 +351,10 @@ def gen_api(seed, isa=None, flavour=None, force=None):
         elif k < 0.85:
             sub = r.sample(names, r.randint(1, len(names)))
             ops.append(["insp", sub, r.choice([1, 1, 3])])
-        elif k < 0.92:
+        elif k < 0.90:
             ops.append(["clock", r.choice(["skew", "skew", "freeze", "unfreeze", "advance"]), r.choice([-3.0, 0.01, 100.0, -0.5, 25.0])])
+        elif k < 0.92:
+            ops.append(["timer", r.choice(["resume_timer", "stop_timer", "resume_timer"])])
         elif k < 0.96 and flavour in ("reload", "loads"):
             ops.append(["load", gen_text(r, isa, p_bad=0.2)])  # possibly on a started object (F-reload)
         else:
@@ -507,6 +510,9 @@ def _run_api(trace, prop):
                 CLOCK.sim_ms += abs(op[2]) * 1000
             res.faults["F-clock:" + op[1]] += 1
             continue
+        elif kind == "timer":
+            sub.timer(op[1])
+            res.probes["timer function called directly (" + op[1] + ")"] += 1
         elif kind == "reset":
             sub.new_simulation()
             watch = None
@@ -586,6 +592,12 @@ class ApiEpisodes(Batch):
 
 def _shrink_settings(cur, still_fails, budget):
     s = cur["settings"]
+    if s.get("decoy") and not budget.spent():
+        cand = {**cur, "settings": {**s, "decoy": False}}
+        budget.tick()
+        if still_fails(cand):
+            cur = cand
+            s = cur["settings"]
     if s.get("isa") != "riscv":
         return cur
     for which in ("dc", "ic"):
